@@ -106,7 +106,7 @@ class Explorer:
         self.feas_axioms = True
         self.timeout_ms = timeout_ms
         self.merging = True
-        self.merge_light_only = True
+        self.merge_light_only = False
         self.max_depth = 60
         self.max_unroll = 64
         self.max_paths = 5000
@@ -538,6 +538,7 @@ class Explorer:
         """Explore all paths of contract `cname` (one explicit case); returns a report dict."""
         c = self.contracts[cname]
         self.current = c
+        self.merge_light_only = bool(c.opts.get('split_heavy', False))
         info = self.index.find_function(c.target) if c.target else None
         case = case or {}
         self.queue.clear()
